@@ -425,8 +425,9 @@ theorem ex_assembles : assembleText exFS "/w" [] false (.path "/w/m.asm") = .ok 
   have hm : absOk "/w/m.asm" = true := by decide
   simp only [hm, ex_abs_w, List.all_nil]
   have hr : exFS.readAt "/w/m.asm" = some [] := by decide
-  simp only [hr, bytesToAscii, List.all_nil, if_true, List.map_nil, readLinesAux.eq_2, splitLines,
-    splitLinesAux, List.isEmpty_nil, readLinesAux.go.eq_1]
+  have ht : bytesToText [] = some [] := by decide
+  simp only [hr, ht, readLinesAux.eq_2, splitLines, splitLinesAux, List.isEmpty_nil, if_true,
+    readLinesAux.go.eq_1]
   rfl
 
 def exArgs (hex : Option String) : Args :=
